@@ -94,7 +94,7 @@ JudgeSub(e, o) ==
 JudgeOp(e, o) ==
     IF ~OutputOK(e.out.k) THEN Bad("outcome-" \o e.out.k, <<"C01", "C10">>, e.st)
     ELSE IF e.o.op \in LikelyOps THEN
-        LET allowed == { ApplyOpL(o, e.o, fb) : fb \in BOOLEAN }
+        LET allowed == { ApplyOpL(o, e.o, fb) : fb \in CfgsFor(T, StrOf(o.id.lang)) }
             hit == { x \in allowed : x.res = e.out /\ x.obj = e.st }
         IN IF hit = {} THEN Bad("op-" \o e.o.op, <<"C10", IF e.o.op = "maximize" THEN "C07" ELSE "C08">>, e.st)
            ELSE IF e.ser # SerLoc(e.st) THEN Bad("op-text", <<"C04", "C10">>, e.st)
